@@ -117,7 +117,6 @@ func c04ReadMap(k int, bs uint32, maxCount uint16, maxStart uint64, maxLen int) 
 	vp.AllocCap(maxLen)
 	vp.Unwind(6*maxLen + 8) // the check loops below run maxLen x (device reads) iterations
 	buf := make([]byte, n)
-	vp.KnownPanic("KF-C04-2", "ext4/file.go:73")
 	vp.NoPanic()
 	got, err := fl.Read(buf)
 	vp.AllowPanic()
@@ -206,7 +205,6 @@ func c04WriteMap(k int, bs uint32, maxCount uint16, maxStart uint64, maxLen int)
 	vp.Unwind(6*maxLen + 8)
 	data := make([]byte, n)
 	vp.Fill(data, "data")
-	vp.KnownPanic("KF-C04-3", "ext4/file.go:198")
 	vp.NoPanic()
 	got, err := fl.Write(data)
 	vp.AllowPanic()
